@@ -1,10 +1,14 @@
 #!/bin/sh
 # usage: tools_try_mutant.sh <patch> <prop> [tier]   — applies the patch to /repo, runs the check, reverts
+# (the evidence file of the property is put back afterwards: committed evidence must describe the unchanged tree)
 set -u
 P="$1"; PROP="$2"; TIER="${3:-quick}"
 cd /repo || exit 3
 git apply --check "$P" || { echo "patch does not apply"; exit 3; }
 git apply "$P"
+cp /verif/evidence/$PROP.json /verif/build/evidence_$PROP.keep 2>/dev/null
 cd /verif && ./check "$PROP" --tier "$TIER"; RC=$?
 git -C /repo checkout -- .
+cp /verif/evidence/$PROP.json /verif/build/evidence_$PROP.mutant 2>/dev/null
+[ -f /verif/build/evidence_$PROP.keep ] && mv /verif/build/evidence_$PROP.keep /verif/evidence/$PROP.json
 echo "check exit=$RC"
